@@ -251,6 +251,24 @@ def run(ctx):
                     # re-initialise the same handle without lzma_end() after a few calls, then decode from the start
                     p["reinit_after"] = ctx.rng.randint(1, 6)
                 jobs.append((g, p))
+    # One allocation fails (initialisation, a thread, a worker's Block decoder, an input / output buffer, the Index
+    # hash ...): every ordinal of one slicing run on two files, plus random ordinals elsewhere.  The decoder must end
+    # with LZMA_MEM_ERROR after a prefix of the correct output, or behave exactly as without the failure; no hang, no
+    # race.  Not trace-validated.
+    import re
+    for g in [x for x in groups if x["file"] in ("valid4", "corrupt_b2") and not x["memt"] and not x["memstop"]][:2 if ctx.quick else 6]:
+        p0 = dict(threads=g["nw"], timeout=g["timeout"], flags=g["flags"], seed=ctx.seed * 1000 + 555, perturb=0, endafter=-1, slicing=1)
+        r0 = mtlib.run_driver(exe, "dec", g["path"], os.path.join(wd, "cnt.out"), os.path.join(wd, "cnt.tr"), failalloc=10 ** 9, **p0)
+        mm = re.search(r"allocs=(\d+)", r0["stdout"])
+        if not mm:
+            raise MachineryError("could not count the allocations of a threaded decoder run: %r" % r0["stdout"][-200:])
+        for kk in range(1, int(mm.group(1)) + 1):
+            jobs.append((g, dict(p0, failalloc=kk)))
+    for g in groups:
+        if not g["memstop"] and ctx.rng.random() < (0.3 if ctx.quick else 1.0):
+            jobs.append((g, dict(threads=g["nw"], timeout=g["timeout"], flags=g["flags"], seed=ctx.seed * 1000 + 556 + len(jobs),
+                                 perturb=30, endafter=-1, slicing=1, failalloc=ctx.rng.randint(1, 60),
+                                 **({"memthr": g["memt"]} if g["memt"] else {}))))
     def exec_job(j):
         g, params = j
         i = jobs.index(j)
@@ -262,8 +280,10 @@ def run(ctx):
     with cf.ThreadPoolExecutor(8) as ex:
         results = list(ex.map(exec_job, jobs))
     refused = [0, 0, 0]
+    failruns = [0, 0]
     for (g, params), res, out in results:
-        label = "%s:T%d:to%d:fl%d:m%s:s%s:seed%d" % (g["file"], g["nw"], g["timeout"], g["flags"], g["memt"], g["memstop"], params["seed"])
+        label = "%s:T%d:to%d:fl%d:m%s:s%s:seed%d%s" % (g["file"], g["nw"], g["timeout"], g["flags"], g["memt"], g["memstop"], params["seed"],
+                                                     ":failalloc%d" % params["failalloc"] if "failalloc" in params else "")
         ctx.case(key=label)
         for key, rep in mtlib.tsan_keys(res["stderr"]):
             ctx.violation(key, rep, dict(kind="run", params=params, file=g["file"]))
@@ -279,6 +299,20 @@ def run(ctx):
         init_ev, evs = mtlib.fold(res["events"])
         if any(e["e"] in ("OVERFLOW", "TOOMANYCALLS") for e in evs):
             raise MachineryError("driver event buffer overflow / too many calls: " + label)
+        if "failalloc" in params:
+            rets_f = [e for e in evs if e["e"] == "Ret"]
+            last_f = rets_f[-1]["a"] if rets_f else (init_ev or {}).get("a")
+            st_ret, st_out = g["st"]
+            if last_f == lz.MEM_ERROR:
+                if not st_out.startswith(out):
+                    ctx.violation("failalloc:prefix:%s" % g["file"], "output before LZMA_MEM_ERROR is not a prefix of the correct "
+                                  "output (%s, failalloc %d)" % (label, params["failalloc"]), dict(kind="run", params=params, file=g["file"]))
+            elif not (g["flags"] & lz.FAIL_FAST) and (last_f != st_ret or out != st_out):
+                ctx.violation("failalloc:stequiv:%s" % g["file"], "with one failed allocation: ret=%s out=%d bytes; single-threaded "
+                              "decoder: ret=%s out=%d bytes (%s, failalloc %d)" % (last_f, len(out), st_ret, len(st_out), label,
+                                                                                 params["failalloc"]), dict(kind="run", params=params, file=g["file"]))
+            failruns[0 if last_f == lz.MEM_ERROR else 1] += 1
+            continue
         refused[2] += sum(1 for e in evs if e["e"] == "GetCheck")
         if g["memstop"]:
             refused[0] += sum(1 for e in evs if e["e"] == "Ret" and e["a"] == lz.MEMLIMIT_ERROR)
@@ -308,6 +342,7 @@ def run(ctx):
     if not refused[2]:
         raise MachineryError("no LZMA_*_CHECK notification was seen (vacuous LZMA_TELL_* groups)")
     ctx.log("memlimit_stop: %d LZMA_MEMLIMIT_ERROR returns, %d lzma_memlimit_set calls; %d LZMA_*_CHECK notifications" % tuple(refused))
+    ctx.log("allocation-failure runs: %d ended with LZMA_MEM_ERROR, %d completed" % tuple(failruns))
     # trace validation: one TLC run per (file, threads, timeout, failfast)
     def validate_group(g):
         if not g["runs"]:
